@@ -29,7 +29,7 @@ VOIGT_TO_STD = {1: (1, 1), 2: (2, 2), 3: (3, 3), 4: (2, 3), 5: (1, 3), 6: (1, 2)
 # worlds
 # ---------------------------------------------------------------------------
 
-STRAIN_KINDS = ["generic", "generic_v", "equal", "near_equal", "two_equal", "near_two_equal", "near_equal_v"]
+STRAIN_KINDS = ["generic", "generic_v", "equal", "near_equal", "two_equal", "near_two_equal", "near_equal_v", "int", "unnormalised"]
 
 
 def gen_strain(rng, kind, ntv):
@@ -44,6 +44,12 @@ def gen_strain(rng, kind, ntv):
         return norm([[e[i] + s[i] * j / ntv for i in range(3)] for j in range(ntv)])
     if kind == "equal":
         return [[1 / 3, 1 / 3, 1 / 3]] * ntv
+    if kind == "int":           # positive axial strains given as whole numbers (an integer-typed array): equal, two equal or all different
+        e = rng.choice([[2, 2, 2], [1, 1, 1], [1, 2, 3], [3, 1, 2], [2, 2, 5], [4, 1, 1]])
+        return [list(e)] * ntv
+    if kind == "unnormalised":  # what the calculator itself passes when no lattice block is given is (1, 1, 1): strains need not sum to one
+        e = [rng.uniform(0.5, 4.0) for _ in range(3)]
+        return [e] * ntv
     if kind in ("near_equal", "near_equal_v"):
         d = [10 ** rng.uniform(-7, -3) * rng.choice([-1, 1]) for _ in range(3)]
         if kind == "near_equal":
@@ -386,8 +392,9 @@ def gen_world_any(rng, tier):
     """85 % stub calculators, 15 % a real Calculator built from a sessionsim world with a lattice block"""
     if rng.random() < 0.85:
         return gen_stub_world(rng, tier)
-    w = W.gen_world(rng, "quick", "A", force_lattice=True, method=rng.choice(["lsq_poly", "spline", "pchip"]), cli_spelling=True)
-    return {"kind": "calculator", "session_world": w, "strain_kind": "lattice:" + w["static"]["system"]}
+    w = W.gen_world(rng, "quick", "A", force_lattice=rng.random() < 0.65, method=rng.choice(["lsq_poly", "spline", "pchip"]), cli_spelling=True)
+    return {"kind": "calculator", "session_world": w,
+            "strain_kind": ("lattice:" + w["static"]["system"]) if w["static"]["lattice"] is not None else "equal"}
 
 
 def build_calculator(world):
@@ -421,7 +428,9 @@ def run_world(seed, tier, world=None, histories=None, relations=True):
         histories = histories[: 3 + (len(histories) - 3) // 2]
     else:
         calc = build_stub(world)
-        strain = numpy.array(world["strain"])
+        strain = numpy.array(world["strain"])           # integer dtype for the "int" kind
+        if world.get("strain_kind") == "int":
+            world = dict(world, strain_is_int=True)
     mon = Monitor()
     mon.install()
     verdicts = []
@@ -436,9 +445,10 @@ def run_world(seed, tier, world=None, histories=None, relations=True):
     # reference: 21 singleton requests
     solo = {}
     solo_ad = {}
+    strain_ref = strain.astype(float) if strain.dtype.kind in "iu" else strain      # references: the same numbers as floats
     for k in ALL21:
         try:
-            keys, iso, ad, tl = run_request(calc, strain, [[k]])
+            keys, iso, ad, tl = run_request(calc, strain_ref, [[k]])
             runs += 1
         except Exception as e:
             verdict("O-complete", f"singleton request [{k}] raised {type(e).__name__}: {str(e)[:150]}", history=[[k]])
@@ -493,6 +503,28 @@ def run_world(seed, tier, world=None, histories=None, relations=True):
                 if not dev2 <= 1e-9:
                     verdict("O-history", f"adiabatic c{k} depends on the request: deviates from its singleton-request value by {dev2:.3e} x scale", history=h, dev=dev2)
                     break
+    # the tensor the calculator assembled for itself (full_modulus) against a fresh request for the same strains and keys: the static part does
+    # not depend on temperature, so differences between temperature rows are the phonon part's
+    assembled = 0
+    if world["kind"] == "calculator":
+        try:
+            mk = [canon(k) for k in calc.modulus_keys]
+            keys, iso, ad, tl = run_request(calc, strain, [[k] for k in mk])
+            runs += 1
+            mon.violations = []
+            for key in keys:
+                for name, mine, theirs in (("isothermal", iso[key], calc.modulus_isothermal[key]), ("adiabatic", ad[key], calc.modulus_adiabatic[key])):
+                    a = numpy.asarray(mine, dtype=float)
+                    b = numpy.asarray(theirs, dtype=float)
+                    da, db = a[1:] - a[:1], b[1:] - b[:1]
+                    if not _dev(da, db) / scale <= 1e-9:
+                        verdict("O-history", f"the {name} tensor the calculator assembled for itself: the temperature dependence of c{canon(key)} differs from that of a "
+                                f"fresh request for the same strains and components by {_dev(da, db) / scale:.3e} x scale", history=[[k] for k in mk])
+                        break
+                assembled += 1
+        except Exception as e:
+            verdict("O-complete", f"comparison with the calculator's own tensor raised {type(e).__name__}: {str(e)[:150]}")
+    mon.violations = []
     # cancellation sweep: an earlier request cancelled at the FIRST execution of a distinct source line (seeded sample of the lines one full
     # request runs), then a fresh request that must equal its singleton references
     swept = 0
@@ -639,7 +671,7 @@ def run_world(seed, tier, world=None, histories=None, relations=True):
         mon.violations = []
     return {"verdicts": verdicts, "runs": runs, "stats": mon.stats, "event_digest": mon.digest(), "n_events": len(mon.events),
             "strain_kind": world.get("strain_kind"), "maxdev": maxdev, "history_sizes": {str(k): v for k, v in sizes.items()},
-            "rel": rel, "aborted_requests": aborted, "cancellation_sweep": swept, "reuse_chain_steps": reuse_checked, "interleaved_lists_checked": interleaved_checked, "scale": scale, "wall": time.time() - t0, "n_histories": len(histories), "world_kind": world["kind"],
+            "rel": rel, "aborted_requests": aborted, "cancellation_sweep": swept, "assembled_components_checked": assembled, "reuse_chain_steps": reuse_checked, "interleaved_lists_checked": interleaved_checked, "scale": scale, "wall": time.time() - t0, "n_histories": len(histories), "world_kind": world["kind"],
             "sample": {"seed": seed, "world_kind": world["kind"], "strain_kind": world.get("strain_kind"), "strain_row0": world["strain"][0], "history": histories[-1]}}
 
 
